@@ -30,6 +30,30 @@ def _make_sources(td, layout, rng=None, exts=None):
     paths, intact = [], []
     for si, spec in enumerate(layout):
         ext = (exts[si] if exts else "")
+        if spec.endswith("~"):
+            # gzip-compressed, written with a flush after every record, the file ends at the last flush point (no gzip trailer: the writing process died)
+            import gzip
+
+            from flow.record.stream import RecordStreamWriter
+
+            path = os.path.join(td, f"src{si}.records.gz")
+            paths.append(path)
+            A, B = _descs()
+            raw = io.BytesIO()
+            gz = gzip.GzipFile(fileobj=raw, mode="wb")
+            w = RecordStreamWriter(gz)
+            recs = []
+            for kind in spec[:-1]:
+                r = A(n=k, s=f"s{k}", ts=T1, ts2=T2, _generated=GEN) if kind == "A" else B(n=k, t=f"t{k}", _generated=GEN)
+                k += 1
+                w.write(r)
+                w.flush()
+                gz.flush()
+                recs.append(r)
+            open(path, "wb").write(raw.getvalue())
+            w.fp = None
+            intact.append(recs)
+            continue
         path = os.path.join(td, f"src{si}.records{ext}")
         paths.append(path)
         if spec == "missing":
@@ -45,7 +69,12 @@ def _make_sources(td, layout, rng=None, exts=None):
             ppath = path if pi == 0 else os.path.join(td, f"src{si}.part{pi}.records{ext}")
             w = RecordWriter(ppath)
             for kind in part:
-                r = A(n=k, s=f"s{k}\udcff" if k % 2 else f"s{k}", ts=(None if k == 2 else T1), ts2=(None if k % 3 == 1 or k == 2 else T2), _generated=GEN) if kind == "A" else B(n=k, t=f"t{k}", _generated=GEN)
+                if kind == "a":
+                    from flow.record import RecordDescriptor
+
+                    r = RecordDescriptor("c16/a", [("varint", "n"), ("string", "s"), ("string", "extra")])(n=k, s=f"s{k}", extra=f"x{k}", _generated=GEN)
+                else:
+                    r = A(n=k, s=f"s{k}\udcff" if k % 2 else f"s{k}", ts=(None if k == 2 else T1), ts2=(None if k % 3 == 1 or k == 2 else T2), _generated=GEN) if kind == "A" else B(n=k, t=f"t{k}", _generated=GEN)
                 k += 1
                 w.write(r)
                 recs.append(r)
